@@ -28,6 +28,8 @@ type Contract struct {
 	Line       int
 	Pkg        string // import path
 	Name       string // function name as written: Func, (*T).Method, T.Method, Outer$1, Gen[int32]
+	Variant    string // "func F as V": a second specification of the same code, never used at call sites
+	Ghosts     []specParam
 	Props      []string
 	Mode       Mode
 	Tags       string // extra build tags the body must be loaded with ("" or "purego")
@@ -46,7 +48,6 @@ type Contract struct {
 	NoOverflow bool // int mode: do not generate overflow obligations (listed as assumption)
 	NoPanicOff bool // do not generate safety obligations
 	Unroll     map[int]int
-	Ghost      []string
 	Bounded    string
 	Opaque     map[string]bool // struct types treated as opaque
 	Hide       map[string]bool // spec functions applied as uninterpreted functions of (arguments, rows read)
@@ -246,7 +247,11 @@ func ParseContractFile(path, pkg string) (*ContractFile, error) {
 		}
 		switch word {
 		case "func":
-			cur = &Contract{File: path, Line: linenos[i], Pkg: pkg, Name: rest, Pure: map[string]bool{}, FnSpecs: map[string]string{}, Unroll: map[int]int{}, Opaque: map[string]bool{}, Hide: map[string]bool{}, Replay: "auto"}
+			variant := ""
+			if fn, v, ok := strings.Cut(rest, " as "); ok {
+				rest, variant = strings.TrimSpace(fn), strings.TrimSpace(v)
+			}
+			cur = &Contract{File: path, Line: linenos[i], Pkg: pkg, Name: rest, Variant: variant, Pure: map[string]bool{}, FnSpecs: map[string]string{}, Unroll: map[int]int{}, Opaque: map[string]bool{}, Hide: map[string]bool{}, Replay: "auto"}
 			cf.Contracts = append(cf.Contracts, cur)
 			lem = nil
 		case "lemma":
@@ -352,6 +357,12 @@ func ParseContractFile(path, pkg string) (*ContractFile, error) {
 				case "loopmodifies":
 					cur.LoopMods = append(cur.LoopMods, c)
 				}
+			case "ghost":
+				ps, err := parseSpecParams(rest)
+				if err != nil {
+					return nil, fail(i, "%v", err)
+				}
+				cur.Ghosts = append(cur.Ghosts, ps...)
 			case "pure":
 				for _, w := range strings.Fields(rest) {
 					cur.Pure[w] = true
